@@ -76,10 +76,10 @@ Proof. repeat split; vm_compute; reflexivity. Qed.
    branch with a double root (the resolvent then has rational roots that are squares) *)
 Example nv_quartic_local_hyps_biquadratic :
   forall e, In e (solve_poly_radicals [4; 0; -5; 0; 1]) -> rad_okK QcK e.
-Proof. vm_compute. intuition (subst; exact I). Qed.
+Proof. intros e H. vm_compute in H. repeat (destruct H as [<- | H]; [exact I|]). contradiction. Qed.
 Example nv_quartic_local_hyps_euler :
   forall e, In e (solve_poly_radicals [-10; 23; -15; 1; 1]) -> rad_okK QcK e.
-Proof. vm_compute. intuition (subst; exact I). Qed.
+Proof. intros e H. vm_compute in H. repeat (destruct H as [<- | H]; [exact I|]). contradiction. Qed.
 Example nv_quartic_euler_model :
   solve_poly [-10; 23; -15; 1; 1] = Ok (SFinite [[RQ 1; RQ 2; RQ (-5)]; [RQ 1; RQ 2; RQ (-5)]]).
 Proof. vm_compute. reflexivity. Qed.
